@@ -659,6 +659,10 @@ def _parse_datetime_iso_match(date_match, tz=None):
         # datetime can handle.
         usecond = min(999999, int(round(float(usecond) * 1e6)))
 
+    if hour == 24 and minute == 0 and second == 0 and usecond == 0:
+        # xs:dateTime allows 24:00:00 to denote the first instant of the next day
+        return datetime(year, month, day, 0, 0, 0, 0, tz) + timedelta(days=1)
+
     return datetime(year, month, day, hour, minute, second, usecond, tz)
 
 
